@@ -207,8 +207,11 @@ func MeasureClockOffsetSCION(ctx context.Context, log *slog.Logger,
 	return m.Timestamp, m.Offset, m.Error
 }
 
+// MeasureClockOffsets collects the offsets to refclks that arrive before ctx is
+// done at the front of ms and returns their number; what lies behind them in
+// ms is left over from earlier calls and means nothing.
 func (c *ReferenceClockClient) MeasureClockOffsets(ctx context.Context,
-	refclks []ReferenceClock, ms []measurements.Measurement) {
+	refclks []ReferenceClock, ms []measurements.Measurement) int {
 	if len(ms) != len(refclks) {
 		panic("number of result offsets must be equal to the number of reference clocks")
 	}
@@ -234,5 +237,5 @@ func (c *ReferenceClockClient) MeasureClockOffsets(ctx context.Context,
 			}
 		}(ctx, refclk)
 	}
-	collectMeasurements(ctx, ms, msc)
+	return collectMeasurements(ctx, ms, msc)
 }
